@@ -92,12 +92,16 @@ Record state := mkState {
   refs : amap Z;              (* full reference name |-> commit number (may dangle) *)
   head : headref;
   idx : fmap;
-  wt : fmap }.
+  wt : fmap;
+  notree : list Z }.          (* commits whose root tree object is missing from the store *)
 
-Definition set_refs (s : state) (r : amap Z) := mkState (commits s) r (head s) (idx s) (wt s).
-Definition set_head (s : state) (h : headref) := mkState (commits s) (refs s) h (idx s) (wt s).
-Definition set_idx (s : state) (i : fmap) := mkState (commits s) (refs s) (head s) i (wt s).
-Definition set_wt (s : state) (w : fmap) := mkState (commits s) (refs s) (head s) (idx s) w.
+Definition set_refs (s : state) (r : amap Z) := mkState (commits s) r (head s) (idx s) (wt s) (notree s).
+Definition set_head (s : state) (h : headref) := mkState (commits s) (refs s) h (idx s) (wt s) (notree s).
+Definition set_idx (s : state) (i : fmap) := mkState (commits s) (refs s) (head s) i (wt s) (notree s).
+Definition set_wt (s : state) (w : fmap) := mkState (commits s) (refs s) (head s) (idx s) w (notree s).
+
+(* the object store: never changed by Checkout / Reset *)
+Definition objs (s : state) : list fmap * list Z := (commits s, notree s).
 
 Inductive err :=
 | EBranchHashExclusive | ECreateRequiresBranch | EBranchExists
@@ -106,8 +110,24 @@ Inductive err :=
 (* an operation returns the state it leaves behind, with or without an error *)
 Definition result := (option err * state)%type.
 
+(* CommitObject(c) succeeds *)
+Definition commit_exists (s : state) (c : Z) : bool :=
+  if (c <? 0)%Z then false
+  else match nth_error (commits s) (Z.to_nat c) with Some _ => true | None => false end.
+
+(* CommitObject(c) and its Tree() succeed *)
 Definition tree_of (s : state) (c : Z) : option fmap :=
-  if (c <? 0)%Z then None else nth_error (commits s) (Z.to_nat c).
+  if (c <? 0)%Z then None
+  else if existsb (Z.eqb c) (notree s) then None
+  else nth_error (commits s) (Z.to_nat c).
+
+(* hashes 100..199 name objects that exist but are no commits (a tree, a blob) *)
+Definition is_noncommit (c : Z) : bool := (100 <=? c)%Z && (c <? 200)%Z.
+
+(* getCommitFromCheckoutOptions on a given hash (repaired: the tree is read too) *)
+Definition checkoutable (s : state) (c : Z) : option err :=
+  if is_noncommit c then Some EOther
+  else match tree_of s c with None => Some EObjectNotFound | Some _ => None end.
 
 (* Repository.Head(): HEAD resolved through one symbolic level *)
 Definition head_commit (s : state) : option Z :=
@@ -283,7 +303,7 @@ Definition apply_reset (c : Z) (t pv : fmap) (m : rmode) (s : state) : result :=
 Definition reset_commit (commit : Z) (s : state) : option err * Z :=
   if (commit =? -1)%Z then
     match head_commit s with None => (Some ERefNotFound, commit) | Some c => (None, c) end
-  else match tree_of s commit with None => (Some EObjectNotFound, commit) | Some _ => (None, commit) end.
+  else if commit_exists s commit then (None, commit) else (Some EObjectNotFound, commit).
 
 (* the tree the worktree is diffed from (Hard / Keep) *)
 Definition prev_tree (m : rmode) (from : option fmap) (s : state) : htree :=
@@ -342,9 +362,9 @@ Definition create_branch (o : copts) (br : bytes) (s : state) : option err * (Z 
       match (if (co_hash o =? -1)%Z then head_commit s else Some (co_hash o)) with
       | None => (Some ERefNotFound, (co_hash o, s))
       | Some h =>
-        match tree_of s h with
-        | None => (Some EObjectNotFound, (co_hash o, s))
-        | Some _ => (None, (h, set_refs s (insert br h (refs s))))
+        match checkoutable s h with
+        | Some e => (Some e, (co_hash o, s))
+        | None => (None, (h, set_refs s (insert br h (refs s))))
         end
       end
     end
@@ -354,7 +374,7 @@ Definition create_branch (o : copts) (br : bytes) (s : state) : option err * (Z 
 Definition resolve_commit (br : bytes) (hash : Z) (s : state) : option err * Z :=
   match (if (hash =? -1)%Z then lookup br (refs s) else Some hash) with
   | None => (Some ERefNotFound, hash)
-  | Some c => match tree_of s c with None => (Some EObjectNotFound, c) | Some _ => (None, c) end
+  | Some c => match checkoutable s c with Some e => (Some e, c) | None => (None, c) end
   end.
 
 Definition co_mode (o : copts) : rmode :=
@@ -427,7 +447,7 @@ Definition okind (k : kind) : out := OSym (match k with KReg => "f" | KExec => "
 Definition ofmap (m : fmap) : out :=
   OList (map (fun qe => OList [OBytes (fst qe); okind (fst (snd qe)); OBytes (snd (snd qe))]) m).
 Definition commit_no (s : state) (c : Z) : Z :=
-  match tree_of s c with Some _ => c | None => (-2)%Z end.
+  if commit_exists s c then c else (-2)%Z.
 Definition osnap (s : state) : out :=
   OList [ match head s with
           | HSym b => OList [OSym "sym"; OBytes b]
@@ -457,7 +477,7 @@ Fixpoint run_ops (ops : list op) (s : state) : list out :=
   end.
 
 Definition norm_state (s : state) : state :=
-  mkState (map (fun t => of_list t) (commits s)) (of_list (refs s)) (head s) (of_list (idx s)) (of_list (wt s)).
+  mkState (map (fun t => of_list t) (commits s)) (of_list (refs s)) (head s) (of_list (idx s)) (of_list (wt s)) (notree s).
 
 (* correspondence entry point *)
 Definition porcelain_run (s : state) (ops : list op) : out :=
